@@ -677,6 +677,8 @@ func (c *codegen) pickVarsFromNodes(nodes []nodeContext, markAsUsed func(name st
 							nextExprToCheck = append(nextExprToCheck, val.derive(t))
 						case *ast.SelectorExpr: // imp_pkg.Anna.GetAge() => mark Anna (exported global struct) as used.
 							nextExprToCheck = append(nextExprToCheck, val.derive(t))
+						default: // Annas[0].Age, (*ptr).Age, f().Age => check the whole expression.
+							nextExprToCheck = append(nextExprToCheck, val.derive(t))
 						}
 					} else {
 						ident := n.X.(*ast.Ident)
@@ -685,7 +687,17 @@ func (c *codegen) pickVarsFromNodes(nodes []nodeContext, markAsUsed func(name st
 					}
 					return false
 				case *ast.CompositeLit: // var _ = f(1) + []int{1, Unused, 3}[1] => mark Unused as "used".
+					var isMap bool
+					if t := c.typeInfo.TypeOf(n); t != nil {
+						_, isMap = t.Underlying().(*types.Map)
+					}
 					for _, e := range n.Elts {
+						// map[int]int{Unused: 1} => mark Unused as "used" (keys of struct literals are field names).
+						if kv, ok := e.(*ast.KeyValueExpr); ok && isMap {
+							if _, ok := kv.Key.(*ast.BasicLit); !ok {
+								nextExprToCheck = append(nextExprToCheck, val.derive(kv.Key))
+							}
+						}
 						switch e.(type) {
 						case *ast.BasicLit:
 						default:
@@ -699,6 +711,11 @@ func (c *codegen) pickVarsFromNodes(nodes []nodeContext, markAsUsed func(name st
 					return false
 				case *ast.DeferStmt:
 					nextExprToCheck = append(nextExprToCheck, val.derive(n.Call.Fun))
+					for _, arg := range n.Call.Args {
+						if _, ok := arg.(*ast.BasicLit); !ok {
+							nextExprToCheck = append(nextExprToCheck, val.derive(arg))
+						}
+					}
 					return false
 				case *ast.BasicLit:
 					return false
